@@ -534,12 +534,16 @@ def run_dec(ctx, mods, case, out):
     want = canon(obj)
     back = pickle.loads(data)
     got = canon(back)
-    path = os.path.join(ctx.wd(), 'dec.env')
+    path = os.path.join(ctx.wd(), 'dec.env' if len(data) % 2 else '.dec [a]?*~#% é.env')
     # the real to_file / from_file round trip (default protocol)
     if case['variant'] == 'plain' and case['proto'] == pickle.DEFAULT_PROTOCOL:
         if os.path.exists(path):
             os.unlink(path)
         obj.to_file(path)
+        if not os.path.isfile(path):
+            ctx.oracle_failure(f'Env.to_file does not write the file [{case.get("envmode", "plain")}] '
+                               f':: {json.dumps(case)[:300]}', case, key='to_file-no-file')
+            return False
         with open(path, 'rb') as fil:
             written = fil.read()
         obs = call_from_file(mods, path)
@@ -812,9 +816,33 @@ def run_large(ctx, mods, case):
 
 # ---- file-system histories -------------------------------------------------
 
+SPECIAL_NAMES = ['.hidden', '.', 'a[b]c', '[ab]', '[!x]', 'q?x', '?', 'st*r', '*', 'with space', ' lead',
+                 'ünï©ødé-€', '100%', '%s', '#tag', '~tilde', '~', 'L' * 200, 'a.b.c', '-dash', 'valjean.env',
+                 '{curly}', "it's", '$HOME', '!bang', 'a,b;c', 'x=y&z', 'back\\slash', '..dots', 'trail.',
+                 '(paren)', '@at', '+plus', 'new\nline']
+SPECIAL_NAMES.remove('.')          # '.' is the root itself, not a task directory
+
+ENVMODES = ['plain'] * 10 + ['tmpdir-other-fs'] * 3 + ['root-other-fs'] * 2 + ['tmpdir-missing',
+                                                                                 'tmpdir-is-file']
+ROOTFORMS = ['plain'] * 9 + ['special', 'special', 'brackets', 'unicode', 'dot', 'trailing-slash',
+                             'dotdot', 'relative', 'relative-dotdot', 'dot-relative']
+
+
 def gen_fs_case(rng, idx):
     ntasks = rng.choice([1, 2, 3, 3, 4, 6])
     names = [f't{i}' for i in range(ntasks)]
+    if rng.random() < 0.4:
+        # task names with glob metacharacters, leading dots, spaces, unicode, very long
+        pool = list(SPECIAL_NAMES)
+        rng.shuffle(pool)
+        names = [pool.pop() if rng.random() < 0.75 else n for n in names]
+    case = gen_fs_ops(rng, idx, names)
+    case['envmode'] = rng.choice(ENVMODES)
+    case['rootform'] = rng.choice(ROOTFORMS)
+    return case
+
+
+def gen_fs_ops(rng, idx, names):
     ops = []
     nrounds = rng.choice([1, 1, 2, 3])
     for _ in range(nrounds):
@@ -877,12 +905,102 @@ def subst(spec, root):
     return spec
 
 
+SHM = '/dev/shm'
+
+
+class Place:
+    '''where and under which process environment a history runs: the output root as
+    the caller spells it (`raw`: absolute, relative to a changed current directory,
+    with a trailing slash, with '..' components, with glob metacharacters, spaces,
+    unicode), its real path (`real`, the key of the harness's own bookkeeping), and
+    TMPDIR / tempfile.tempdir (on another file system than the root, missing, a
+    regular file).  Everything is restored and removed on exit.'''
+
+    def __init__(self, ctx, case):
+        self.ctx, self.case = ctx, case
+        self.mode = case.get('envmode', 'plain')
+        self.form = case.get('rootform', 'plain')
+        self.extra = []
+
+    def __enter__(self):
+        import tempfile
+        ctx, case = self.ctx, self.case
+        self.saved = (os.getcwd(), os.environ.get('TMPDIR'), tempfile.tempdir)
+        tag = f'c14-{os.getpid()}-{case["idx"]}'
+        base = os.path.join(ctx.wd(), f'place{case["idx"]}')
+        mode = self.mode
+        if mode in ('tmpdir-other-fs', 'root-other-fs'):
+            shm = os.path.join(SHM, tag)
+            try:
+                os.makedirs(shm, exist_ok=True)
+                self.extra.append(shm)
+            except OSError:
+                ctx.count('skipped_no_dev_shm')
+                mode = 'plain'
+        if mode == 'root-other-fs':
+            base = os.path.join(shm, 'place')
+        shutil.rmtree(base, ignore_errors=True)
+        os.makedirs(base)
+        self.extra.append(base)
+        if mode == 'tmpdir-other-fs':
+            tmp = os.path.join(shm, 'tmp')
+            os.makedirs(tmp, exist_ok=True)
+            os.environ['TMPDIR'] = tmp
+            tempfile.tempdir = None
+        elif mode == 'tmpdir-missing':
+            os.environ['TMPDIR'] = os.path.join(base, 'no-such-tmp-dir')
+            tempfile.tempdir = None
+        elif mode == 'tmpdir-is-file':
+            put_file(os.path.join(base, 'tmp-is-a-file'), b'x')
+            os.environ['TMPDIR'] = os.path.join(base, 'tmp-is-a-file')
+            tempfile.tempdir = None
+        ctx.count('place_env_' + mode)
+        ctx.count('place_root_' + self.form)
+        leaf = {'special': 'out [ab] ?*', 'brackets': 'r[0-9]', 'unicode': 'sörtie é€ #1 ~x %d',
+                'dot': '.hidden-root'}.get(self.form, 'out')
+        real = os.path.join(base, 'cwd', leaf)
+        os.makedirs(real)
+        os.makedirs(os.path.join(base, 'cwd', 'side'))
+        raw = real
+        if self.form == 'trailing-slash':
+            raw = real + '/'
+        elif self.form == 'dotdot':
+            raw = os.path.join(base, 'cwd', 'side', '..', leaf)
+        elif self.form == 'relative':
+            os.chdir(os.path.join(base, 'cwd'))
+            raw = leaf
+        elif self.form == 'relative-dotdot':
+            os.chdir(os.path.join(base, 'cwd', 'side'))
+            raw = os.path.join('..', leaf, '')
+        elif self.form == 'dot-relative':
+            os.chdir(os.path.join(base, 'cwd'))
+            raw = os.path.join('.', leaf)
+        self.raw, self.real = raw, os.path.realpath(real)
+        return self
+
+    def __exit__(self, *exc):
+        import tempfile
+        os.chdir(self.saved[0])
+        if self.saved[1] is None:
+            os.environ.pop('TMPDIR', None)
+        else:
+            os.environ['TMPDIR'] = self.saved[1]
+        tempfile.tempdir = self.saved[2]
+        for path in self.extra:
+            shutil.rmtree(path, ignore_errors=True)
+
+
 def run_fs(ctx, mods, case, out):
+    with Place(ctx, case) as place:
+        return run_fs_at(ctx, mods, case, out, place)
+
+
+def run_fs_at(ctx, mods, case, out, place):
     import random
     from valjean.cambronne.common import read_env, write_env
-    root = os.path.join(ctx.wd(), f'fs{case["idx"]}')
-    shutil.rmtree(root, ignore_errors=True)
-    os.makedirs(root)
+    root = place.real            # bookkeeping and model: real paths
+    root_raw = place.raw         # what the implementation is given
+    rp = os.path.realpath
     broot = root.encode()
     bfile = FILENAME.encode()
     truth = {}        # path -> ('intact', name, entry canon) | ('bad',)
@@ -914,14 +1032,14 @@ def run_fs(ctx, mods, case, out):
             oldstat[p] = os.stat(p)
             kind = 'write'
         elif kind in ('write', 'crashwrite'):
-            entries = subst(op[1], root)
+            entries = subst(op[1], root_raw)
         if kind in ('write', 'crashwrite'):
             specs = dict((n, sp) for n, sp in entries)
             env = build(['E', entries], {}, mods)
             for name, sub in env.items():
                 if 'output_dir' in sub:
                     os.makedirs(sub['output_dir'], exist_ok=True)
-                    p = os.path.join(sub['output_dir'], FILENAME)
+                    p = rp(os.path.join(sub['output_dir'], FILENAME))
                     if os.path.isdir(p):
                         shutil.rmtree(p)
             # make sure every rewritten file is noticed: remove the old ones first is
@@ -935,9 +1053,12 @@ def run_fs(ctx, mods, case, out):
                 return False
             after = snapshot()
             planned = {}
+            spelled_real = root_raw == root
             for name, sub in env.items():
                 if 'output_dir' in sub:
-                    planned[os.path.join(sub['output_dir'], FILENAME)] = (name, sub)
+                    spelled = os.path.join(sub['output_dir'], FILENAME)
+                    planned[rp(spelled)] = (name, sub)
+                    spelled_real = spelled_real and spelled == rp(spelled)
             written = [(p, after[p][0]) for p in after if p in planned]
             for p in after:
                 if p not in planned and after[p] != before.get(p):
@@ -950,6 +1071,12 @@ def run_fs(ctx, mods, case, out):
                                        f':: {json.dumps(case)[:300]}', case, key='write_env-missing-file')
                     continue
                 truth[p] = ('intact', name, canon(sub), specs[name])
+                obs = call_from_file(mods, p)
+                if obs[0] != 'env' or canon(dict(obs[1])) != canon({name: sub}):
+                    ctx.oracle_failure(f'after write_env the file of an entry with an output directory does '
+                                       f'not hold that entry :: {os.path.relpath(p, root)} '
+                                       f'[{place.mode}, root {place.form}] in {json.dumps(case)[:300]}', case,
+                                       key='write_env-entry-not-in-file')
                 if p in oldstat:
                     if os.path.getsize(p) == oldstat[p].st_size:
                         os.utime(p, ns=(oldstat[p].st_atime_ns, oldstat[p].st_mtime_ns))
@@ -957,13 +1084,18 @@ def run_fs(ctx, mods, case, out):
                     else:
                         ctx.count('fs_rewrite_other_size')
             items = [(canon(k), canon(v)) for k, v in env.items()]
-            coq_ops.append('OWriteEnv ' + coq_items(items) + ' ['
-                           + '; '.join(f'({cbytes(p.encode())}, {cbytes(b)})' for p, b in written) + ']')
+            if spelled_real:
+                coq_ops.append('OWriteEnv ' + coq_items(items) + ' ['
+                               + '; '.join(f'({cbytes(p.encode())}, {cbytes(b)})' for p, b in written) + ']')
+            else:
+                # paths not spelled as real paths: the model is given the files by their real
+                # paths (its write plan is compared in the histories with plainly spelled roots)
+                coq_ops += [f'OPut {cbytes(p.encode())} {cbytes(b)}' for p, b in written]
             ctx.count('fs_write')
             if kind == 'crashwrite' and planned:
                 # the last file written by this (interrupted) write_env is cut short
                 lastname = [n for n, s in env.items() if 'output_dir' in s][-1]
-                p = os.path.join(env[lastname]['output_dir'], FILENAME)
+                p = rp(os.path.join(env[lastname]['output_dir'], FILENAME))
                 if not os.path.isfile(p):
                     continue            # already reported: write_env did not write it
                 size = os.path.getsize(p)
@@ -977,7 +1109,7 @@ def run_fs(ctx, mods, case, out):
         elif kind == 'read':
             names = op[1]
             try:
-                res = read_env(root=root, names=names, filename=FILENAME, fmt='pickle')
+                res = read_env(root=root_raw, names=names, filename=FILENAME, fmt='pickle')
                 got = [(canon(k), canon(v)) for k, v in res.items()]
             except BaseException as exc:  # noqa
                 res, got = exc, None
@@ -1087,7 +1219,6 @@ def run_fs(ctx, mods, case, out):
                 truth[p] = ('bad',)
                 coq_ops.append(f'ONoRead {bp}')
     out.append((case, f'CFs {cbytes(bfile)} [' + ';\n   '.join(coq_ops) + ']'))
-    shutil.rmtree(root, ignore_errors=True)
     return all(nontrivial)
 
 
@@ -1133,6 +1264,26 @@ def gen_cases(ctx):
         ['write', [['t0', e0], ['t1', e1]]], ['read', ['t0', 't1'], 1], ['read', ['t0', 't1'], 2],
         ['rewrite', 't0', 0], ['rewrite', 't1', 1], ['read', ['t0', 't1'], 3],
         ['rewrite', 't0', 1], ['read', ['t1', 't0']]]})
+    # the process environment of the write and the spelling of the paths
+    ed = gen_entry(rng, 't0', '{root}', status=3, rich=False)
+    ef = gen_entry(rng, 't0', '{root}', status=4, rich=False)
+    eh = gen_entry(rng, '.hidden', '{root}', status=3, rich=False)
+    eb = gen_entry(rng, 'a[b]c', '{root}', status=3, rich=False)
+    k = 100001
+    for mode in ('tmpdir-other-fs', 'root-other-fs', 'tmpdir-missing', 'tmpdir-is-file'):
+        cases.append({'kind': 'fs', 'idx': k, 'names': ['t0'], 'envmode': mode, 'rootform': 'plain', 'ops': [
+            ['write', [['t0', ed]]], ['read', ['t0']], ['crashwrite', [['t0', ef]], 0.6], ['read', ['t0']],
+            ['write', [['t0', ed]]], ['read', ['t0'], 5], ['read', ['t0']]]})
+        k += 1
+    for form in ('special', 'brackets', 'unicode', 'dot', 'trailing-slash', 'dotdot', 'relative',
+                 'relative-dotdot', 'dot-relative'):
+        cases.append({'kind': 'fs', 'idx': k, 'names': ['.hidden', 'a[b]c', 't0'], 'envmode': 'plain',
+                      'rootform': form, 'ops': [
+            ['write', [['.hidden', eh], ['a[b]c', eb], ['t0', ed]]], ['read', ['.hidden', 'a[b]c', 't0']],
+            ['cut', 'a[b]c', 0.5, 0], ['read', ['t0', 'a[b]c', '.hidden']]]})
+        k += 1
+    for mode in ('tmpdir-other-fs', 'tmpdir-missing'):
+        cases.append({'kind': 'dec', 'env': tiny, 'proto': 4, 'variant': 'plain', 'envmode': mode})
     # --- large entries (oracle only): > 64 KiB (several frames), > 1 MiB
     mib = 2 ** 20
     large = [('bytes', mib + 4096), ('ints', mib + mib // 4), ('str', 300000)]
@@ -1143,6 +1294,8 @@ def gen_cases(ctx):
     for i, (payload, size) in enumerate(large):
         cases.append({'kind': 'large', 'payload': payload, 'size': size, 'seed': rng.getrandbits(30),
                       'noffs': 200 if quick else 400})
+        if i % 3 == 0:
+            cases[-1]['envmode'] = 'tmpdir-other-fs'
     # --- random environments, protocols and framings, every truncation offset
     nenv = 100 if quick else 1200
     for _ in range(nenv):
@@ -1151,6 +1304,8 @@ def gen_cases(ctx):
                                      (3, 'plain'), (5, 'plain'), (4, 'optimize'),
                                      (4, 'optimize-noframe'), (5, 'noframe'), (3, 'optimize')])
         cases.append({'kind': 'dec', 'env': spec, 'proto': proto, 'variant': variant})
+        if variant == 'plain' and proto == 4 and rng.random() < 0.4:
+            cases[-1]['envmode'] = rng.choice(['tmpdir-other-fs', 'tmpdir-missing', 'tmpdir-is-file'])
     # --- opcode-stream level: other protocols, payloads outside the value universe
     nscan = 40 if quick else 600
     for i in range(nscan):
@@ -1188,6 +1343,9 @@ def load_mods():
 def run_case(ctx, mods, case, out, enc_cases):
     import random
     kind = case['kind']
+    if kind in ('dec', 'large') and case.get('envmode'):
+        with Place(ctx, dict(case, idx=f'{kind}')):
+            return run_dec(ctx, mods, case, out) if kind == 'dec' else run_large(ctx, mods, case)
     if kind == 'dec':
         return run_dec(ctx, mods, case, out)
     if kind == 'scan':
@@ -1235,6 +1393,10 @@ def run(ctx):
                 'protocols 0-2 and payloads outside the universe; write/crash/cut/delete/garbage/read '
                 'histories through the real write_env/read_env, with repeated reads in one process around '
                 'in-memory modification of the result and rewrites of the same size and time stamps; '
+                'histories run under several process environments (TMPDIR on another file system than the '
+                'output root and vice versa, missing, a regular file) and path spellings (roots and task '
+                'names with glob metacharacters, leading dots, spaces, unicode, 200 characters; relative to a '
+                'changed current directory, trailing slash, .. components); '
                 'entries of 0.3-5 MiB cut at the first/last 32 bytes, frame boundaries and random offsets; '
                 'corrupted files through the real from_file.  Non-trivial: an environment with at least one entry / a history with a '
                 'damaged file and an intact DONE entry; distinct by case content')
